@@ -123,6 +123,10 @@ class C13(TraceCheck):
                     res = fa.splice(STRPOOL[m - 1], n)
                 elif op == "append":
                     res = fa.append(fb)
+                    if m % 2:
+                        # the same with plain strs that carry SGR sequences (parsed by append / splice): further new values
+                        side = [fa.append("\x1b[31mred\x1b[39m"), fa.splice("\x1b[1mq\x1b[0m", min(n, len(fa))),
+                                fa.append("\x9b44mz")]
                 elif op == "join":
                     res = fa.join([fb, STRPOOL[n - 1], fb])
                 elif op == "withatts":
